@@ -387,7 +387,7 @@ func oracleC10(content, pre, post string) func(*Case, string) string {
 
 func casesC10(g *Gen) []*Case {
 	var cs []*Case
-	alpha := []string{"<", ">", "&", ";", "#", "3", "4", "9", "x", `"`, "'", "\\", "&amp;", "&lt;", "&#34;", "&#39;", "é", "中", " ", "amp",
+	alpha := []string{"<", ">", "&", ";", "#", "3", "4", "9", "x", `"`, "'", "\\", "&amp;", "&lt;", "&#34;", "&#39;", "é", "中", " ", "amp", ",", ", ", "}", "{", ":",
 		// what is an escape in text is none in a string literal
 		"\\{{", "\\@end", "\\@if(", "{{", "@end", "\\}}", "\\n"}
 	seen := map[string]bool{}
@@ -408,6 +408,10 @@ func casesC10(g *Gen) []*Case {
 				{"array_element", "[{{ [" + l + "][0] }}]", "[", "]"},
 				{"array_join", "[{{ [" + l + ", \"k\"].join(\"|\") }}]", "[", "|k]"},
 				{"ternary", "[{{ true ? " + l + " : \"n\" }}]", "[", "]"},
+				{"array_printed", "[{{ [\"k\", " + l + "] }}]", "[k, ", "]"},
+				{"array_printed_alone", "<{{ [" + l + "] }}>", "<", ">"},
+				{"array_printed_first", "[{{ [" + l + ", \"k\"] }}]", "[", ", k]"},
+				{"object_printed", "[{{ {a: " + l + "} }}]", "[{a: ", "}]"},
 			}
 			for _, cx := range ctx {
 				c := evalCase(cx.fam, cx.src, nil)
